@@ -152,7 +152,8 @@ impl Repository {
         }
 
         let name = String::from(path.file_stem()?.to_str()?);
-        let expansion_number = name[2..3].parse().ok()?;
+        // directories that are not named like an expansion ("ex1") are not repositories
+        let expansion_number = name.get(2..3)?.parse().ok()?;
 
         let mut d = PathBuf::from(dir);
         d.push(format!("{name}.ver"));
